@@ -124,7 +124,9 @@ class MsgProp:
                     rng.shuffle(q)
                 ops.append(L(ais.sentence(bytes(q), fill=fill), 0, 1))
             if rng.random() < 0.6 or len(payload) < 4:
-                ops.append(L(ais.sentence(payload, fill=fill), 0, 1))
+                # (now and then behind a tag block with an NMEA 4.10 grouping parameter: it says nothing about this sentence)
+                tb_ = rng.choice([None, None, None, b"g:1-2-%d" % rng.randrange(1, 99), b"g:2-2-%d" % rng.randrange(1, 99), b"g:1-1-3*00", b"s:x,g:1-3-7"])
+                ops.append(L(ais.sentence(payload, fill=fill, tagblock=tb_), 0, 1))
             else:
                 n = rng.choice([2, 3])
                 cut = sorted(rng.sample(range(1, len(payload)), n - 1))
@@ -141,7 +143,8 @@ class MsgProp:
                         # a group is its count, numbering and id; everything else may change between fragments
                         kw = dict(channel=rng.choice([b"A", b"B", b"", b"1"]), talker=rng.choice([b"AI", b"AB", b"BS", b"XX"]),
                                   report=rng.choice([b"VDM", b"VDO", b"VDX"]), delim=rng.choice([b"!", b"$"]),
-                                  tagblock=rng.choice([None, b"c:%d*00" % i]))
+                                  tagblock=rng.choice([None, b"c:%d*00" % i, b"g:%d-%d-%d" % (rng.choice([1, i + 1, n]), rng.choice([1, n, 9]), rng.randrange(1, 99)),
+                                                       b"g:1-1-5*00"]))
                     ops.append(L(ais.sentence(pc, fill=fill if i == n - 1 else 0, nf=n, fn=i + 1, mid=mid, **kw), 0, 1))
                     if i < n - 1 and rng.random() < 0.4:
                         # a repeated or stray fragment: rejected, and must leave nothing behind
@@ -223,6 +226,35 @@ def m_op(bs):
     return "M " + hexs(bs)
 
 
+def list_repeat_ops(rng):
+    """Element lists (types 7, 13, 20) and station pairs (15, 16) whose elements repeat: all equal, adjacent equal,
+    A B A, trailing all-zero / all-one elements - every complete element present is reported, equal or not."""
+    ops = []
+    for t, w in ((7, 32), (13, 32), (20, 30)):
+        for n in (2, 3, 4):
+            for pattern in ("same", "adjacent", "aba", "zero-tail", "ones-tail", "zero-all"):
+                f = gen.base_fields(t, rng, ais.LAYOUTS[t])
+                hdr = ais.pack(f, ais.LAYOUTS[t], 40)[:40]
+                a = [rng.getrandbits(1) for _ in range(w)]
+                b = [rng.getrandbits(1) for _ in range(w)]
+                c = [rng.getrandbits(1) for _ in range(w)]
+                els = {"same": [a] * n, "adjacent": ([a, a, b, c] if n == 4 else [a, b, b][:n] if n == 3 else [a, a]),
+                       "aba": [a, b, a, b][:n], "zero-tail": [a, b, c][:n - 1] + [[0] * w],
+                       "ones-tail": [a, b, c][:n - 1] + [[1] * w], "zero-all": [[0] * w] * n}[pattern]
+                bits = hdr + [x for e in els for x in e]
+                ops.append(m_op(ais.bits_to_bytes(bits)))
+    for _ in range(6):
+        f = gen.base_fields(15, rng, ais.LAYOUTS[15])
+        f["mmsi2"] = f["mmsi1"]
+        if rng.random() < 0.5:
+            f["type2_1"], f["offset2_1"] = f["type1_1"], f["offset1_1"]
+        ops.append(m_op(ais.bits_to_bytes(ais.pack(f, ais.LAYOUTS[15], 160))))
+        f = gen.base_fields(16, rng, ais.LAYOUTS[16])
+        f["mmsi2"], f["offset2"], f["increment2"] = f["mmsi1"], f["offset1"], f["increment1"]
+        ops.append(m_op(ais.bits_to_bytes(ais.pack(f, ais.LAYOUTS[16], 144))))
+    return ops
+
+
 # ---------------------------------------------------------------- C04
 
 class C04(MsgProp):
@@ -261,6 +293,7 @@ class C04(MsgProp):
                     nbits = 40 + (32 if t != 20 else 30) * n
                     ops.append(m_op(ais.bits_to_bytes(ais.pack(f, ais.LAYOUTS[t], nbits))))
                 yield (f"list:{t}x{n}", ops)
+        yield ("list:repeats", list_repeat_ops(rng))
         for nbits in (88, 90, 108, 110, 112, 160, 162, 168):
             ops = []
             for _ in range(nrand):
@@ -294,9 +327,27 @@ class C09(MsgProp):
 
     def project(self, op, ans):
         a = parse_answer(ans)
+        if op.startswith("P "):
+            # a per-type decoder handed another type's payload: no property says what it must do with it, except that
+            # a message it does report carries the six type bits it was given
+            return "" if a["cls"] != "ok" else f"message_type={a['kv'].get('message_type')}"
         if a["cls"] != "ok":
             return a["cls"]
         return f"ok {a.get('kind')} message_type={a['kv'].get('message_type')}"
+
+    def judge(self, rep, cfg, label, ops, impl, model):
+        if label != "foreign-decoder":
+            return MsgProp.judge(self, rep, cfg, label, ops, impl, model)
+        for op, a, m in zip(ops, impl, model):
+            rep.evaluations += 1
+            rep.count(label)
+            pa = parse_answer(a)
+            if pa["cls"] == "ok":
+                bs = bytes.fromhex(op.split(" ")[2])
+                want = bs[0] >> 2
+                if pa["kv"].get("message_type") != str(want):
+                    rep.violation(f"C09: a decoded message's own type field ({pa['kv'].get('message_type')}) differs from the first six "
+                                  f"payload bits ({want}) - per-type decoder {op.split(' ')[1]}", {"cfg": cfg, "ops": [op], "impl": a, "model": m})
 
     def extra_judge(self, rep, cfg, op, a, m):
         # relational form, straight from the statement
@@ -325,6 +376,16 @@ class C09(MsgProp):
             yield (f"type:{t}", ops)
         for t in gen.ALL_TYPES:
             yield (f"full:{t}", [m_op(bs) for (_, bs) in gen.payload_cases(t, rng, 20, walks=False)])
+        # the per-type public decoders handed a payload of ANOTHER type (op P): judged on one clause only - a message
+        # that is reported carries the six type bits it was given (whether it is reported at all is nobody's business)
+        ops = []
+        for t in gen.ALL_TYPES:
+            f = gen.base_fields(t, rng, ais.LAYOUTS[t])
+            bs = gen.full_payload(t, f) + gen.tail_for(t, rng) + bytes(8)
+            for t2 in ais.SUPPORTED:
+                if t2 != gen.type_code(t) and not (t2 in (1, 2, 3) and gen.type_code(t) in (1, 2, 3)):
+                    ops.append(f"P {t2} {hexs(bs)}")
+        yield ("foreign-decoder", ops)
 
 
 # ---------------------------------------------------------------- C10 / C11
@@ -363,6 +424,13 @@ def coord_cases(rng, tier):
         yield (f"coord:{t}", ops)
     # interrogation slot offsets
     ops = []
+    # slot offsets cut off by the end of the payload (every even bit length): absent, never a partial number
+    for nbits in range(72, 172, 2):
+        for _ in range(2):
+            f = gen.base_fields(15, rng, ais.LAYOUTS[15])
+            for k_ in ("offset1_1", "offset1_2", "offset2_1"):
+                f[k_] = rng.choice([4095, 0xAAA, 0x555, rng.getrandbits(12)])
+            ops.append(m_op(ais.bits_to_bytes(ais.pack(f, ais.LAYOUTS[15], 160)[:nbits])))
     for nbits in (88, 110, 160):
         for name in ("offset1_1", "offset1_2", "offset2_1"):
             for v in (0, 1, 2, 4095, rng.getrandbits(12)):
@@ -643,7 +711,7 @@ class C12(MsgProp):
                 if name == "partno":
                     vals = [0, 1, 2, 3]
                 elif name == "comm_state":
-                    vals = [s << 17 | rng.getrandbits(17) for s in range(4)]
+                    vals = [s << 17 | rng.getrandbits(17) for s in range(4)] + [0x60006, 0x20006, 0x40006, 0x6, 0x60000, 0x7FFFF, 0]
                 else:
                     vals = range(1 << w)
                 mm = [n2 for (n2, o2, w2) in layout if w2 == 30 and "mmsi" in n2]
@@ -808,6 +876,7 @@ class C14(MsgProp):
                         bs = bytes([first]) + body
                     ops.append(m_op(bs))
             yield (f"len:{t}", ops)
+        yield ("list:repeats", list_repeat_ops(rng))
         # the crate's own truncated type-5 vector and bit-granular truncations of a full type 5
         f = gen.base_fields(5, rng, ais.LAYOUTS[5])
         full = ais.pack(f, ais.LAYOUTS[5], 424)
@@ -852,6 +921,15 @@ class C15(MsgProp):
                     bs = gen.full_payload(t, f) + bytes(rng.getrandbits(8) for _ in range(n))
                     ops.append(m_op(bs))
             yield (f"bin:{t}", ops)
+        # every application identifier a decoder might know by name, with data lengths around any record size
+        ops = []
+        for (dac, fid) in gen.KNOWN_DAC_FID:
+            for t in (6, 8):
+                for n in (0, 1, 2, 3, 13, 14, 15, 37, 38, 39, 41, 60, 100):
+                    f = gen.base_fields(t, rng, ais.LAYOUTS[t])
+                    f["dac"], f["fid"] = dac, fid
+                    ops.append(m_op(gen.full_payload(t, f) + bytes(rng.getrandbits(8) | 1 for _ in range(n))))
+        yield ("bin:known-ids", ops)
 
 
 # ---------------------------------------------------------------- C16
@@ -944,6 +1022,9 @@ class C16(MsgProp):
                         states.add((sync << 17) | (to << 14) | sub)
             for _ in range(nrand):
                 states.add(rng.getrandbits(19))
+            # constants of the standard: the fixed state of Class B "CS" units (1100000000000000110), its neighbours,
+            # the all-zero / all-one states and one-hot states
+            states |= {0x60006, 0x60007, 0x60004, 0x20006, 0x40006, 0x60002, 0, (1 << 19) - 1} | {1 << b for b in range(19)}
             # every hour x minute of the UTC sub-message (time-out 1) and every received-station / slot count pattern
             for sync in range(4):
                 for hour in range(32):
@@ -1021,6 +1102,18 @@ class C03:
                     t = bytearray(s)
                     t[pos] = bad
                     ops.append(f"U {rng.randrange(6)} {bytes(t).hex()}")
+        # runs of one and the same invalid byte (NUL above all: a table or memo initialised with zeros), at the start,
+        # group-aligned and not, and strings shaped like the common fixed-length messages with all-ones last characters
+        for bad in (0, 255, 32, 120):
+            for run in (1, 2, 3, 4, 5, 8, 12):
+                for at in (0, 1, 3, 4, 8):
+                    s0 = gen.random_alphabet(rng, at) + bytes([bad]) * run + gen.random_alphabet(rng, rng.choice([0, 1, 4, 24]))
+                    ops.append(f"U {rng.randrange(6)} {s0.hex()}")
+        for n in range(1, 61):
+            for fill in range(6):
+                for first in b"1358;":
+                    s0 = bytes([first]) + gen.random_alphabet(rng, max(0, n - 3)) + b"ww"
+                    ops.append(f"U {fill} {s0[:n].hex() if n >= 2 else s0[:1].hex()}")
         yield ("invalid-byte", ops)
         # well-formed multi-byte UTF-8 sequences (a payload read as text): every byte of them is outside the
         # alphabet, whatever their code point is modulo 256
